@@ -55,6 +55,18 @@ def prim_visit(it, ctx, args, st):
             return
         yield st, it.err(de_err('invalid_type', meth))
         return
+    if T == 'char':
+        if meth == 'visit_char':
+            yield st, it.ok(v)
+            return
+        if meth in ('visit_str', 'visit_string', 'visit_borrowed_str'):
+            sv = sval(st, v)
+            one = z3.And(sv.len == 1, z3.ULT(sv.bytes[0], 128)) if sv.bytes else z3.BoolVal(False)
+            for s2, good in fork_bool(it, st, one):
+                yield s2, (it.ok(z3.ZeroExt(24, sv.bytes[0])) if good else it.err(de_err('invalid_value', meth)))
+            return
+        yield st, it.err(de_err('invalid_type', meth))
+        return
     if T == 'bool':
         yield st, (it.ok(v) if meth == 'visit_bool' else it.err(de_err('invalid_type', meth)))
         return
@@ -116,3 +128,54 @@ for _m in ['visit_bool', 'visit_str', 'visit_string', 'visit_borrowed_str', 'vis
            'visit_bytes', 'visit_byte_buf', 'visit_seq', 'visit_map', 'visit_char', 'visit_newtype_struct', 'visit_enum'] + \
           [f'visit_{s}{w}' for s in 'iu' for w in (8, 16, 32, 64, 128)]:
     TMODELS[('PrimVisitor', 'Visitor', _m)] = prim_visit
+
+
+# ------------------------------------------------------------------ primitive Serialize impls (serde, by contract) and an event recorder
+PRIM_SER = {'bool': 'serialize_bool', 'f32': 'serialize_f32', 'f64': 'serialize_f64', 'char': 'serialize_char', 'str': 'serialize_str',
+            'std::string::String': 'serialize_str'}
+for _t in INT_BITS:
+    PRIM_SER[_t] = 'serialize_' + ('i64' if _t == 'isize' else 'u64' if _t == 'usize' else _t)
+
+
+def M_prim_serialize(it, ctx, args, st):
+    """<T as Serialize>::serialize::<S>(&v, s) for a primitive T: s.serialize_T(v)"""
+    t = strip_refs(ctx.self_ty)
+    name = t[1] if t[0] == 'path' else ('()' if t[0] == 'tuple' and not t[2] else None)
+    S = ctx.gargs[0]
+    v = args[0]
+    while isinstance(v, Ptr) and not isinstance(st.deref(v), BStr):
+        v = st.deref(v)
+    if name == '()':
+        yield from it.call_trait(ctx.fr, S, 'serde::Serializer', 'serialize_unit', [], [args[1]], st)
+        return
+    if name not in PRIM_SER:
+        raise Unsupported('Serialize for ' + ty_str(t))
+    yield from it.call_trait(ctx.fr, S, 'serde::Serializer', PRIM_SER[name], [], [args[1], v], st)
+
+
+def rec_event(st, *ev):
+    st.aux['rec'] = st.aux.get('rec', ()) + (ev,)
+
+
+def T_rec_leaf(it, ctx, args, st):
+    m = ctx.callee.method
+    v = args[1] if len(args) > 1 else None
+    if isinstance(v, Ptr):
+        v = st.deref_all(v)
+    rec_event(st, m[len('serialize_'):], v)
+    yield st, it.ok(UNIT)
+
+
+def T_rec_some(it, ctx, args, st):
+    rec_event(st, 'some', None)
+    T = ctx.gargs[0]
+    yield from it.call_trait(ctx.fr, T, 'serde::Serialize', 'serialize', [('path', 'Rec', ())], [args[1], args[0]], st)
+
+
+for _m in ['bool', 'i8', 'i16', 'i32', 'i64', 'i128', 'u8', 'u16', 'u32', 'u64', 'u128', 'f32', 'f64', 'char', 'str', 'bytes', 'none', 'unit']:
+    TMODELS[('Rec', 'Serializer', 'serialize_' + _m)] = T_rec_leaf
+TMODELS[('Rec', 'Serializer', 'serialize_some')] = T_rec_some
+
+MODELS += [
+    (r'<&*(?:bool|f64|f32|char|str|std::string::String|\(\)|[iu](?:8|16|32|64|128|size)) as ' + SER + r'Serialize>::serialize::<.*>', M_prim_serialize),
+]
